@@ -20,7 +20,7 @@ R = 2188824287183927522224640574525727508854836440041603434369820418657580849561
 STRATS = {
     "ReduceHint": ["k1", "k2", "k7", "q-1", "q+1", "solve"],
     "MulAddHint": ["k1", "k2", "q-1", "q+1", "solve"],
-    "SplitLimbsHint": ["hi-1", "hi+1"],
+    "SplitLimbsHint": ["hi-1", "hi+1", "solve-hi"],
     "InverseHint": ["inv+p", "inv+1", "zero"],
 }
 
